@@ -1560,7 +1560,7 @@ func main() {
 			h.replayFile(f, false)
 		}
 	}
-	total := o.Count(2500, 100000)
+	total := o.Count(1800, 100000)
 	h.cw.PerFile = 14 // the alignment families are heavy cases: spread them over several shards
 	h.fixed2AlignFamilies()
 	h.cw.Flush()
